@@ -7,11 +7,13 @@ import (
 	"os"
 	"strconv"
 
+	"verifharness/c13"
 	"verifharness/c17"
 	"verifharness/lib"
 )
 
 var props = map[string]func(*lib.Ctx){
+	"C13": c13.Run,
 	"C17": c17.Run,
 }
 
